@@ -320,6 +320,26 @@ func (x *Exec) keySort(key string) string {
 	panic("no sort recorded for heap key " + key)
 }
 
+// markRef records that the heap array `key` holds object references (pointers, maps, slice backings):
+// for those, "everything stored designates an object allocated earlier" is asserted once per version.
+func (x *Exec) markRef(key string) {
+	if x.refKey == nil {
+		x.refKey = map[string]bool{}
+	}
+	x.refKey[key] = true
+}
+
+func (x *Exec) wfAxiom(sym, key, alloc string) string {
+	x.useTop()
+	if strings.HasPrefix(key, "M%") {
+		return fmt.Sprintf("(forall ((b!w Int) (i!w Int)) (! (<= (top (select (select %s b!w) i!w)) %s) :pattern ((select (select %s b!w) i!w))))", sym, alloc, sym)
+	}
+	if strings.HasPrefix(key, "V%") {
+		return fmt.Sprintf("(forall ((b!w Int) (i!w Int)) (! (<= (top (select (select %s b!w) i!w)) %s) :pattern ((select (select %s b!w) i!w))))", sym, alloc, sym)
+	}
+	return fmt.Sprintf("(forall ((o!w Int)) (! (<= (top (select %s o!w)) %s) :pattern ((select %s o!w))))", sym, alloc, sym)
+}
+
 func (x *Exec) regKey(key, sort string) string {
 	if old, ok := x.sorts[key]; ok && old != sort {
 		panic(fmt.Sprintf("heap key %s: sort %s vs %s", key, old, sort))
@@ -337,6 +357,9 @@ func (x *Exec) hget(h Heap, key string) string {
 	}
 	n := initSym(key, h.Epoch)
 	x.reg.declare(n, x.keySort(key))
+	if x.refKey[key] && h.Epoch == 0 {
+		x.reg.axiom(n, "wf", x.wfAxiom(n, key, "|alloc@0|"))
+	}
 	return n
 }
 
@@ -371,6 +394,9 @@ func (x *Exec) havocKey(st *State, key string) {
 	n := x.reg.fresh(key)
 	x.reg.declare(n, x.keySort(key))
 	st.H.M[key] = n
+	if x.refKey[key] {
+		st.assume(x.wfAxiom(n, key, st.alloc)) // st.alloc is the watermark after the havocking call / loop
+	}
 }
 
 func fieldKey(structT types.Type, field string) string {
@@ -552,6 +578,7 @@ func (x *Exec) loadAt(st *State, h Heap, key, obj string, t types.Type, subRef f
 		for _, p := range []string{"#b", "#o", "#l", "#c"} {
 			x.regKey(key+p, "(Array Int Int)")
 		}
+		x.markRef(key + "#b")
 		sl := SL{B: sel(x.hget(h, key+"#b"), obj), O: sel(x.hget(h, key+"#o"), obj), L: sel(x.hget(h, key+"#l"), obj), C: sel(x.hget(h, key+"#c"), obj), Ty: t}
 		if st != nil {
 			st.assume(x.sliceFacts(st, sl))
@@ -566,6 +593,9 @@ func (x *Exec) loadAt(st *State, h Heap, key, obj string, t types.Type, subRef f
 			panic(unsupported("floating point"))
 		}
 		x.regKey(key, arrSort(t))
+		if isPointer(t) || isMap(t) {
+			x.markRef(key)
+		}
 		tv := TV{sel(x.hget(h, key), obj), t}
 		if st != nil {
 			st.assume(rangeFact(t, tv.T))
@@ -654,6 +684,9 @@ func (x *Exec) loadElem(st *State, h Heap, elem types.Type, b, i string) Val {
 		panic(unsupported("array of arrays"))
 	default:
 		mk := x.memKey(elem)
+		if isPointer(elem) || isMap(elem) {
+			x.markRef(mk)
+		}
 		tv := TV{sel(sel(x.hget(h, mk), b), i), elem}
 		if st != nil {
 			st.assume(rangeFact(elem, tv.T))
